@@ -179,26 +179,33 @@ def gradient(r, gid, bbox, pal=None, spread=True, allow_focal=True):
 
 def twin_gradient_source(r, gi=0):
     """Two shapes in one glyph whose radial gradients have the same circles and stops but different residual
-    (non-uniform) gradientTransforms - candidates for a wrongly shared <radialGradient> in one OT-SVG document."""
+    (non-uniform) gradientTransforms - candidates for a wrongly shared <radialGradient> in one OT-SVG document.
+    Half of the sources centre the gradients on the user-space origin (viewBox -50 -50 100 100) so that the two
+    transforms also agree in their translation part."""
     vb = r.choice([100, 128, 1000])
     u = vb / 100.0
-    cx, cy, rad = 50 * u, 50 * u, r.uniform(15, 30) * u
+    origin = r.random() < 0.5
+    ox = -50 * u if origin else 0.0
+    cx, cy, rad = 50 * u + ox, 50 * u + ox, r.uniform(15, 30) * u
     stops = f'<stop offset="0" stop-color="#{r.randint(0, 0xFFFFFF):06x}"/><stop offset="1" stop-color="#{r.randint(0, 0xFFFFFF):06x}"/>'
     k = r.uniform(0.25, 0.6)
-    kind = r.choice(["skew", "stretch-x-vs-y", "stretch-vs-none"])
+    kind = r.choice(["skew", "stretch-x-vs-y", "stretch-vs-none", "rotated-stretch"])
     if kind == "skew":
         t1, t2 = f"matrix(1 0 {k:.3f} 1 {-k*cy:.3f} 0)", f"matrix(1 0 {-k:.3f} 1 {k*cy:.3f} 0)"
     elif kind == "stretch-x-vs-y":
         # same maximal scale (so the same uniform part), the other axis squeezed
         t1 = f"translate({cx:.3f} {cy:.3f}) scale(1 {1-k:.3f}) translate({-cx:.3f} {-cy:.3f})"
         t2 = f"translate({cx:.3f} {cy:.3f}) scale({1-k:.3f} 1) translate({-cx:.3f} {-cy:.3f})"
+    elif kind == "rotated-stretch":
+        t1 = f"translate({cx:.3f} {cy:.3f}) rotate(30) scale(1 {1-k:.3f}) rotate(-30) translate({-cx:.3f} {-cy:.3f})"
+        t2 = f"translate({cx:.3f} {cy:.3f}) rotate(-40) scale(1 {1-k:.3f}) rotate(40) translate({-cx:.3f} {-cy:.3f})"
     else:
         t1 = f"translate({cx:.3f} {cy:.3f}) scale(1 {1-k:.3f}) translate({-cx:.3f} {-cy:.3f})"
         t2 = ""
     g = lambda i, t: f'<radialGradient id="tw{gi}_{i}" gradientUnits="userSpaceOnUse" cx="{cx:.3f}" cy="{cy:.3f}" r="{rad:.3f}"' + (f' gradientTransform="{t}"' if t else "") + f">{stops}</radialGradient>"
-    a = f'<rect x="{20*u:.2f}" y="{25*u:.2f}" width="{30*u:.2f}" height="{50*u:.2f}" fill="url(#tw{gi}_0)"/>'
-    b = f'<path d="M{50*u:.2f},{20*u:.2f} L{85*u:.2f},{40*u:.2f} L{70*u:.2f},{85*u:.2f} L{52*u:.2f},{60*u:.2f} Z" fill="url(#tw{gi}_1)"/>'
-    return f'<svg xmlns="http://www.w3.org/2000/svg" viewBox="0 0 {vb} {vb}"><defs>{g(0, t1)}{g(1, t2)}</defs>{a}{b}</svg>', {"kind": kind}
+    a = f'<rect x="{20*u+ox:.2f}" y="{25*u+ox:.2f}" width="{30*u:.2f}" height="{50*u:.2f}" fill="url(#tw{gi}_0)"/>'
+    b = f'<path d="M{50*u+ox:.2f},{20*u+ox:.2f} L{85*u+ox:.2f},{40*u+ox:.2f} L{70*u+ox:.2f},{85*u+ox:.2f} L{52*u+ox:.2f},{60*u+ox:.2f} Z" fill="url(#tw{gi}_1)"/>'
+    return f'<svg xmlns="http://www.w3.org/2000/svg" viewBox="{ox:g} {ox:g} {vb} {vb}"><defs>{g(0, t1)}{g(1, t2)}</defs>{a}{b}</svg>', {"kind": kind, "origin": origin}
 
 
 VIEWBOXES = [(24, 1), (36, 1), (100, 1), (128, 1), (512, 1), (1000, 1), (128, 0.5), (128, 2), (100, 0.25), (100, 4), (72, 1.3)]
